@@ -874,6 +874,10 @@ func c18Scenario(c *Ctx, j *c18Judge, idx int, r *Rng) {
 	srv.pageSize = Pick(r, []int{0, 1, 2})
 	srv.hdrStyle = r.Intn(4)
 	srv.offerExtra = r.Chance(50)
+	if r.Chance(20) {
+		srv.movedTo = "/moved"
+		c.R.Count("scenario.front-end-redirects-post-and-put")
+	}
 	remote := filepath.Join(base, "remote.git")
 	runIn(base, nil, "git", "init", "-q", "--bare", remote)
 	w, err := newScenRepo(c, filepath.Join(base, "w"), srv)
